@@ -375,9 +375,14 @@ pub fn runtime(workers: usize) -> tokio::runtime::Runtime {
 
 /// Run `fut` on a fresh runtime with a timeout. `Err(())` = timed out.
 pub fn block_on_timeout<F: Future>(workers: usize, secs: u64, fut: F) -> Result<F::Output, ()> {
+    let t0 = std::time::Instant::now();
     let rt = runtime(workers);
     let r = rt.block_on(async { tokio::time::timeout(Duration::from_secs(secs), fut).await });
+    let t1 = t0.elapsed();
     rt.shutdown_timeout(Duration::from_secs(2));
+    if std::env::var("VERIF_DEBUG").is_ok() {
+        eprintln!("[timing] block_on {:?}, shutdown {:?}", t1, t0.elapsed() - t1);
+    }
     r.map_err(|_| ())
 }
 
